@@ -39,6 +39,7 @@ type Prog struct {
 	BlockList []*Block
 	Lemmas    map[string]*Block // "pkgname.lemma"
 	OpaqueSpec map[string]bool  // funcKey of opaque spec functions
+	HeapClasses map[string]bool // "pkgpath.Type" declared with //@ heap Type
 	GInit     map[*types.Var]*GlobalInit
 	InitFuncs map[string][]*FuncInfo // pkg path -> init functions in file order
 	Written   map[*types.Var][]token.Position
@@ -71,7 +72,7 @@ func recvTypeName(t types.Type) string {
 
 func LoadProg(root string) (*Prog, error) {
 	p := &Prog{Root: root, Pkgs: map[string]*packages.Package{}, Funcs: map[*types.Func]*FuncInfo{},
-		FuncByKey: map[string]*FuncInfo{}, Blocks: map[string]*Block{}, Lemmas: map[string]*Block{}, OpaqueSpec: map[string]bool{},
+		FuncByKey: map[string]*FuncInfo{}, Blocks: map[string]*Block{}, Lemmas: map[string]*Block{}, OpaqueSpec: map[string]bool{}, HeapClasses: map[string]bool{},
 		GInit: map[*types.Var]*GlobalInit{}, InitFuncs: map[string][]*FuncInfo{}, Written: map[*types.Var][]token.Position{},
 		LoopOrd: map[ast.Stmt]int{}, LoopFunc: map[ast.Stmt]*FuncInfo{}, strIntern: map[string]int64{}, Overlays: map[string]string{}}
 	p.Extra = &types.Info{Types: map[ast.Expr]types.TypeAndValue{}, Defs: map[*ast.Ident]types.Object{}, Uses: map[*ast.Ident]types.Object{},
@@ -110,6 +111,9 @@ func LoadProg(root string) (*Prog, error) {
 			t := strings.TrimSpace(l)
 			if strings.HasPrefix(t, "//@ import ") {
 				imports = append(imports, strings.TrimSpace(strings.TrimPrefix(t, "//@ import ")))
+			}
+			if strings.HasPrefix(t, "//@ heap ") {
+				p.HeapClasses[pkgPath+"."+strings.TrimSpace(strings.TrimPrefix(t, "//@ heap "))] = true
 			}
 		}
 		src := GenOverlay(blocks[0].PkgName, blocks, imports)
